@@ -24,8 +24,19 @@ def transform(path, data):
     text = re.sub(r"(?<![:\w])thread_local!", "loom::thread_local!", text)
     return text.encode("utf-8"), n1 + n2
 
+# constructs through which state can be shared between threads without passing a primitive that loom intercepts
+SHARING = [r"\bstatic\s+mut\b", r"\bas\s+\*mut\b", r"unsafe\s+impl\s+(Sync|Send)\b", r"\bUnsafeCell\b", r"static\s+ref\s+\w+\s*:\s*[^=;]*(Cell|Mutex|RwLock|Atomic)"]
+
+def sharing_constructs(path, text):
+    out = {}
+    for pat in SHARING:
+        n = len(re.findall(pat, text))
+        if n:
+            out[pat] = n
+    return out
+
 def main():
-    summary = {"substitutions": {}, "files": 0}
+    summary = {"substitutions": {}, "files": 0, "sharing_constructs": {}}
     digest = hashlib.sha256()
     for crate in CRATES:
         src_root = os.path.join(REPO, crate)
@@ -39,6 +50,13 @@ def main():
                 rel = os.path.relpath(sp, src_root)
                 data = open(sp, "rb").read()
                 digest.update(rel.encode()); digest.update(data)
+                if sp.endswith(".rs") and "/tests/" not in sp and not rel.startswith("tests"):
+                    try:
+                        sc = sharing_constructs(sp, data.decode("utf-8"))
+                        if sc:
+                            summary["sharing_constructs"][os.path.join(crate, rel)] = sc
+                    except UnicodeDecodeError:
+                        pass
                 out, n = transform(sp, data)
                 # substitutions inside test modules do not matter; count the non-test ones for the evidence
                 if n and "/tests/" not in sp and not rel.startswith("tests"):
